@@ -22,12 +22,19 @@ func TestVerifC01History(t *testing.T) {
 		dir, cleanup := simTempDir()
 		defer cleanup()
 		s := newSimSys(t, dir)
+		realStores := simWantReal(rapid.IntRange(0, 9).Draw(t, "realStores"))
+		if realStores {
+			defer simAttachRealStores(s, dir)()
+		}
 		h := &simHist{s: s, opts: simHistOpts{MaxRounds: 8, ClockFaults: true, Faults: true, Thorough: thorough}}
 		err := h.run(t)
 		if err == nil {
 			err = h.finish()
 		} else if h.in != nil {
 			h.in.close()
+		}
+		if err == nil && realStores {
+			err = simCompareRealDir(s, dir)
 		}
 		if err != nil {
 			t.Fatalf("C01 violated: %v\nhistory:\n  %s", err, strings.Join(h.st.Desc, "\n  "))
@@ -44,6 +51,7 @@ func TestVerifC01History(t *testing.T) {
 				cls = append(cls, name)
 			}
 		}
+		add(realStores, "real-LocalBackend+SQLite")
 		add(st.FaultsFired > 0, "fault-fired")
 		add(st.Crashes > 0, "crash")
 		add(st.ClockAnoms > 0, "clock-anomaly")
